@@ -503,6 +503,41 @@ fn run(ctx: &RunCtx) -> Report {
         plan.push(format!("stall caller at t={:.3}s for {}ms", at as f64 / SEC as f64, d / MS));
         sim.at(at, move |sim| sim.stall(caller, d));
     }
+    // syscall failures on the caller: a burst of failing send_to / recv_from calls
+    if faulty && rng.chance(1, 4) {
+        let at = t_first + rng.range(0, 3000) * MS;
+        let n = rng.range(1, 12) as u32;
+        let recv = rng.chance(1, 2);
+        plan.push(format!("{} next {n} {} calls of the caller at t={:.3}s", "fail", if recv { "recv_from" } else { "send_to" }, at as f64 / SEC as f64));
+        sim.at(at, move |sim| {
+            if recv {
+                sim.fail_recvs(caller, n)
+            } else {
+                sim.fail_sends(caller, n)
+            }
+        });
+    }
+    // a partition between the caller and some peers, healed later
+    if faulty && rng.chance(1, 4) {
+        let at = t_first + rng.range(0, 2500) * MS;
+        let heal = at + rng.range(200, 6000) * MS;
+        let cut: Vec<std::net::Ipv4Addr> = addrs.iter().filter(|_| rng.chance(1, 2)).map(|a| *a.ip()).collect();
+        let me = *caller_addr.ip();
+        plan.push(format!("partition caller <-> {} peers from t={:.3}s to t={:.3}s", cut.len(), at as f64 / SEC as f64, heal as f64 / SEC as f64));
+        let cut2 = cut.clone();
+        sim.at(at, move |sim| {
+            for ip in &cut {
+                sim.block(me, *ip);
+                sim.block(*ip, me);
+            }
+        });
+        sim.at(heal, move |sim| {
+            for ip in &cut2 {
+                sim.unblock(me, *ip);
+                sim.unblock(*ip, me);
+            }
+        });
+    }
     sim.run_until(last_issue + MS);
 
     judge(&sim, &mut report, caller, &ops, last_issue, stall_total, ppm, &tau_max, n_raw + n_real);
